@@ -147,6 +147,8 @@ def make_plan(seed: int, tier: str, index: int) -> dict[str, Any]:
         op = {"op": "parse", "text": vi, "select": None, **acc}
         if p.random() < 0.3:
             op["fname"] = p.choice(FILE_NAMES)
+        if acc["via"] == "path" and p.random() < 0.12:
+            op["special_file"] = True  # a FIFO / pipe / procfs-style file: stat says size 0
         if acc["via"] == "path" or acc.get("reader") in ("textio", "codecs", "simtext"):
             if sub == "eio" and acc.get("reader") != "simtext" and f.random() < 0.6:
                 op["io"] = {"reads": [f.choice([1, 16, 64, 4096])], "eio_at": f.randint(1, 5)}
